@@ -34,6 +34,14 @@ class Sub(T):
 
 
 @dataclass(eq=False)
+class Falsy(T):
+    """a live instance whose truth value is False (a container-like symbol that is empty)"""
+
+    def __len__(self):
+        return 0
+
+
+@dataclass(eq=False)
 class SubSub(Sub):
     pass
 
@@ -148,7 +156,7 @@ Boss.head_of = HeadOf(Boss, "head_of")
 Org.members = Member(Org, "members")
 Org.sub_org_of = SubOrgOf(Org, "sub_org_of")
 
-CLASSES = {"T": T, "Sub": Sub, "SubSub": SubSub, "Other": Other, "Org": Org, "Human": Human}
+CLASSES = {"T": T, "Sub": Sub, "Falsy": Falsy, "SubSub": SubSub, "Other": Other, "Org": Org, "Human": Human}
 
 _CD = [None]
 
